@@ -1,5 +1,6 @@
 import Psa.AdmitProps
 import Psa.AdmitCases
+import Psa.Deps
 /-! # C07 — dependency failures fail closed for pods and open for advisory paths
 Faults are inputs of the model (`w.getNs`, `r.obj`, `r.old`, `w.listPods`, `w.expireAfter`); every theorem quantifies over
 every placement of them. -/
@@ -131,6 +132,76 @@ theorem C07_labels_evaluated (pv) (cfg : Config) (w : World Ev) (r : Request) (l
   · exact evaluateObj_allowed cfg w.ev _ _ p hrc
   · exact evaluateObj_calls_enforce cfg w.ev _ _ p hrc
 
+/-! ## The dependency adapters (admission/namespace.go, admission/pods.go) -/
+open PSA.Deps in
+/-- **The namespace getter.** It answers "found" exactly when the cache has the namespace, or the cache is absent or says
+    NotFound and the API server has it; a cache failure of any other kind is *not* retried at the API server. -/
+theorem C07_getter_found_iff {α} (lister : Option (Lookup α)) (client : Lookup α) (a : α) :
+    (getNamespace lister client).result = .found a ↔
+      lister = some (.found a) ∨ ((lister = none ∨ lister = some .notFound) ∧ client = .found a) := by
+  cases lister with
+  | none => simp [getNamespace]
+  | some l => cases l <;> simp [getNamespace]
+
+open PSA.Deps in
+/-- the API server is asked exactly when there is no cache or the cache says NotFound -/
+theorem C07_getter_asks_client_iff {α} (lister : Option (Lookup α)) (client : Lookup α) :
+    (getNamespace lister client).clientAsked = true ↔ (lister = none ∨ lister = some .notFound) := by
+  cases lister with
+  | none => simp [getNamespace]
+  | some l => cases l <;> simp [getNamespace]
+
+open PSA.Deps in
+/-- **Composed with the pod path**: whatever the cache and the API server answer, if the getter does not find the namespace,
+    a pod request that is neither ignored nor exempt is denied (500, flagged, nothing evaluated) — for every evaluator,
+    configuration and request. -/
+theorem C07_pod_getter_closed (pv) (cfg : Config) (w : World Ev) (r : Request)
+    (lister : Option (Lookup Labels)) (client : Lookup Labels)
+    (hw : w.getNs = toWorld (getNamespace lister client).result)
+    (h0 : ignoredSubresources.contains r.sub = false) (h1 : exempt r.ns cfg.exNamespaces = false)
+    (h2 : exempt r.user cfg.exUsers = false)
+    (hnf : ∀ l, (getNamespace lister client).result ≠ .found l) :
+    (validatePod pv cfg w r).1.allowed = false ∧ (validatePod pv cfg w r).1.code = 500 ∧
+    (validatePod pv cfg w r).2.evalCalls = [] := by
+  have he : w.getNs = .error () := by
+    rw [hw]
+    cases hres : (getNamespace lister client).result with
+    | found l => exact absurd hres (hnf l)
+    | notFound => rfl
+    | failed => rfl
+  have := C07_pod_ns_lookup pv cfg w r h0 h1 h2 () he
+  exact ⟨this.1, this.2.1, this.2.2.2⟩
+
+open PSA.Deps in
+/-- … and a controller request in the same situation is allowed and flagged -/
+theorem C07_controller_getter_open (pv) (cfg : Config) (w : World Ev) (r : Request)
+    (lister : Option (Lookup Labels)) (client : Lookup Labels)
+    (hw : w.getNs = toWorld (getNamespace lister client).result)
+    (h0 : r.sub = []) (h1 : exempt r.ns cfg.exNamespaces = false) (h2 : exempt r.user cfg.exUsers = false)
+    (hnf : ∀ l, (getNamespace lister client).result ≠ .found l) :
+    (validateController pv cfg w r).1.allowed = true ∧ (validateController pv cfg w r).1.annError = true := by
+  have he : w.getNs = .error () := by
+    rw [hw]
+    cases hres : (getNamespace lister client).result with
+    | found l => exact absurd hres (hnf l)
+    | notFound => rfl
+    | failed => rfl
+  exact ⟨C07_controller_open pv cfg w r, C07_controller_ns_lookup pv cfg w r h0 h1 h2 () he⟩
+
+open PSA.Deps in
+/-- **The pod listers are faithful**: what the dry run sees is exactly what the API server (or the cache) listed, in that
+    order, and a failed listing is a failed listing (never an empty or partial population). -/
+theorem C07_listers_faithful {α} (x : Except Unit (List α)) :
+    clientListPods x = x ∧ informerListPods x = x := by
+  cases x with
+  | ok items => simp [clientListPods, informerListPods]
+  | error e => simp [clientListPods, informerListPods]
+
+open PSA.Deps in
+/-- non-vacuity: a cache that fails (not NotFound) while the API server has the namespace: not found, server not asked -/
+example : (getNamespace (some Lookup.failed) (Lookup.found (1 : Nat))) = { result := .failed, listerAsked := true, clientAsked := false } := by
+  decide
+
 #print axioms C07_pod_closed
 #print axioms C07_pod_ns_lookup
 #print axioms C07_pod_bad_object
@@ -140,4 +211,9 @@ theorem C07_labels_evaluated (pv) (cfg : Config) (w : World Ev) (r : Request) (l
 #print axioms C07_ns_bad_body
 #print axioms C07_ns_never_blocked_by_pods
 #print axioms C07_labels_evaluated
+#print axioms C07_getter_found_iff
+#print axioms C07_getter_asks_client_iff
+#print axioms C07_pod_getter_closed
+#print axioms C07_controller_getter_open
+#print axioms C07_listers_faithful
 end PSA.Props
